@@ -376,6 +376,13 @@ class WalletWorld:
         if ch.coin('in_locktime', 0.3):
             shape['locktime'] = self.chain.tip
             shape['sequence'] = 0xfffffffe
+        elif ch.coin('in_sequence', 0.25):
+            shape['sequence'] = ch.pick('in_seq', [0, 0xfffffffd, 5])
+            if shape.get('version') == 1 and shape['sequence'] == 5:
+                # (Transaction.add_input - which every provider client uses to build its answer - turns a version 1
+                # transaction with a relative-locktime sequence into version 2: what reaches the wallet is not the
+                # chain's transaction any more, a matter of the clients, not of the ledger)
+                shape['sequence'] = 0
         return shape
 
     def op_mine(self):
